@@ -741,6 +741,26 @@ func TestShallowAfterHistory(t *testing.T) {
 	})
 }
 
+// TestRegressions: fixed scenarios of repaired defects.
+func TestRegressions(t *testing.T) {
+	st := ev.G()
+	plain := gen.Schema{States: []gen.StateDef{{Name: "S0"}, {Name: "S1"}, {Name: "S2"}}}
+	add2 := Op{Via: "local", Step: gen.Step{Op: "add", States: []string{"S2"}}}
+	for _, c := range []Case{
+		// a source with a history, shallow clocks, a reconnect, then a queue-tick-only change: the server's tracer
+		// pushed a diff against its initial empty snapshot (0b4be9a)
+		{Schema: plain, NoSchema: true, Shallow: true, PushMs: 2, PaceMs: 30, Pre: []gen.Step{{Op: "add", States: []string{"S2"}}}, Ops: []Op{{Via: "cut"}, add2}},
+		{Schema: plain, NoSchema: false, Shallow: true, PushMs: 2, PaceMs: 30, Pre: []gen.Step{{Op: "add", States: []string{"S2"}}}, Ops: []Op{{Via: "cut"}, add2}},
+		{Schema: plain, NoSchema: false, Shallow: false, PushMs: 2, PaceMs: 30, Pre: []gen.Step{{Op: "add", States: []string{"S2"}}, {Op: "remove", States: []string{"S2"}}, {Op: "add", States: []string{"S1"}}}, Ops: []Op{{Via: "cut"}, add2, {Via: "relisten"}, add2}},
+	} {
+		st.Journal(map[string]any{"kind": "c09", "case": c})
+		if err := runCase(c, st); err != nil {
+			ev.G().PinLast()
+			t.Fatalf("C09 violated (regression): %v", err)
+		}
+	}
+}
+
 func TestReplay(t *testing.T) {
 	p := os.Getenv("VERIF_REPLAY")
 	if p == "" {
